@@ -2,6 +2,7 @@ package props
 
 import (
 	"fmt"
+	"strings"
 	"testing"
 	"testing/synctest"
 	"time"
@@ -278,13 +279,49 @@ func c17Grid(t *testing.T, tier string, shard, shards int, c *h.Collector) {
 	})
 }
 
+// ExactDelta: along controller histories (several scale-ups in one lifetime, the provider rebuilt in
+// between) every scale-up request is "current + d": SetDesiredCapacity never asks for less than or
+// exactly what the ASG has, and what the reference decision leaves for the cloud is what is asked for.
+type ExactDelta struct{ D *Decisions }
+
+func (m ExactDelta) Key() string { return m.D.Key() }
+func (m ExactDelta) AfterScan(ctx *h.ScanCtx) []h.Violation {
+	var out []h.Violation
+	for _, e := range ctx.Entries {
+		if e.Op == sim.OpSetDesired && e.Val <= e.RealDesired {
+			out = append(out, h.Violation{Prop: "C17", Sig: "C17/scale-up-does-not-raise-desired",
+				Msg: fmt.Sprintf("scan %d: SetDesiredCapacity(%s, %d) while the ASG's desired capacity is %d", ctx.Scan, e.Target, e.Val, e.RealDesired)})
+		}
+	}
+	for _, v := range m.D.AfterScan(ctx) {
+		if strings.Contains(v.Sig, "cloud-request") || strings.Contains(v.Sig, "stale-desired") || strings.Contains(v.Sig, "remainder-not-requested") {
+			out = append(out, h.Violation{Prop: "C17", Sig: "C17/controller-history/" + v.Sig, Msg: v.Msg})
+		}
+	}
+	return out
+}
+
 func init() {
 	register(&Check{
 		ID:    "C17",
 		Level: "exploration",
 		Rule: "every provider-level sequence Refresh ; [DeleteNodes(0..3), optionally with its k-th terminate call failing] ; IncreaseSize(d) on the real NodeGroup for desired 0..6 x max 0..7 x d -1..8; fleet mode for d in {1,19,20,21,39,40,41,59,60,61,100} x lifecycle {unset, on-demand, spot} x overrides {none, 2 types} x subnets {1,2} x fleet answer split over 1..3 instance sets x status page size {1,50} x instances ready together / every other one a poll later x the k-th attach call answering with a throttling error x an earlier fleet scale-up of another size on the same provider; " +
 			"recorded arguments compared with the statement; non-trivial = every sequence; distinct by its parameters",
-		Grid:        c17Grid,
-		Assumptions: append([]string{"no other actor changes the desired capacity between Refresh and the request (an absolute-set API is inherently racy with external writers; the property quantifies over inputs and configurations)"}, commonAssumptions...),
+		Grid: c17Grid,
+		// controller histories: several scale-ups in one lifetime with the provider rebuilt in between
+		Scenarios: func(tier string) []*h.Scenario {
+			var out []*h.Scenario
+			for _, fleet := range []bool{false, true} {
+				s := c07Rebuild(fleet)
+				s.Name = strings.Replace(s.Name, "c07.", "c17.", 1)
+				out = append(out, s)
+			}
+			return out
+		},
+		ShardByScenario: true,
+		Monitors:        func() []h.Monitor { return []h.Monitor{ExactDelta{NewDecisions()}} },
+		Bound:           func(tier string) int { return 2 },
+		Nontrivial:      seenKeys,
+		Assumptions:     append([]string{"no other actor changes the desired capacity between Refresh and the request (an absolute-set API is inherently racy with external writers; the property quantifies over inputs and configurations)"}, commonAssumptions...),
 	})
 }
